@@ -105,10 +105,14 @@ def scen_adc_long(env, cfg):
             x = T.electrical_signal(sig)
         else:
             x = T.electrical_signal(sig)
+        xsn = [(x.signal, env.snap(x.signal)), (x.noise, env.snap(x.noise))] if hasattr(x, 'signal') else [(x, env.snap(x))]
         y = D.ADC(x, n=nb, otype=otype)
+        y_again = D.ADC(x, n=nb, otype=otype)
     finally:
         if env.symbolic:
             D.shortest_int = saved
+    env.check('the record handed to ADC (signal and noise) is left untouched', env.And([env.untouched(a, sn) for a, sn in xsn if a is not None]))
+    env.check('digitising the same object again gives the same codes', env.eqs(y_again.signal, env.items(y.signal), scale=100))
     out = env.items(y.signal)[:m]
     env.check('output length equals input length', len(env.items(y.signal)) == len(sig) and y.signal.ndim == 1)
     levels = (1 << nb) - 1
